@@ -187,7 +187,7 @@ func check(w *world) {
 	}
 
 	var sig strings.Builder
-	fmt.Fprintf(&sig, "%v%v|%s|", w.p.blankA, w.p.blankB, w.p.secu)
+	fmt.Fprintf(&sig, "%v%v|%s|%s|", w.p.blankA, w.p.blankB, w.p.secu, trNames[w.p.transport])
 	for _, m := range w.muts {
 		fmt.Fprintf(&sig, "m%v%v%s.%d;", m.remove, m.silent, m.name, m.spec)
 	}
@@ -235,7 +235,7 @@ func check(w *world) {
 			if !anyCommonSome {
 				o.Probe("open-failed-no-common-protocol")
 			}
-			if anyCommonAll && stable && !op.faultArmed {
+			if anyCommonAll && stable && !op.relaxed() {
 				o.Violate("C07/open-failed-with-common-protocol", "%s: NewStream failed (%s) although the listener's table %s (unchanged during the open) matches a requested ID", desc, op.openErr, states[kmin])
 			}
 		default:
@@ -275,7 +275,7 @@ func check(w *world) {
 						o.Probe("stale-knowledge-failed-at-first-use")
 					}
 				}
-				if matchedAll && !op.faultArmed {
+				if matchedAll && !op.relaxed() {
 					o.Violate("C07/first-use-failed-although-supported/"+path, "%s: stream bound to %s, first Write+Read failed (%s) although every possible table matches it (%s)", desc, op.proto, op.useErr, states[kmin])
 				}
 			default:
@@ -323,6 +323,10 @@ func check(w *world) {
 				}
 				verified++
 				o.Probe(path + "-ok")
+				o.Probe(path + "-ok-" + trNames[w.p.transport])
+				if op.lossy {
+					o.Probe("verified-under-udp-loss")
+				}
 				if !op.lazy && op.proto != op.plan.req[0] {
 					o.Probe("eager-fallback-ok")
 				}
@@ -347,6 +351,8 @@ func check(w *world) {
 						hiv = ivs[0]
 					}
 					switch {
+					case op.use2Err != "" && op.lossy:
+						o.Probe("second-round-trip-failed-under-udp-loss")
 					case op.use2Err != "":
 						side := "dialer"
 						herr := ""
@@ -358,6 +364,12 @@ func check(w *world) {
 						o.Violate("C07/cross-talk/second-reply", "%s: second nonce %s answered with %q (first reply %q)", desc, op.nonce2, op.reply2, op.reply)
 					default:
 						o.Probe("second-round-trip-after-idle-" + path)
+						if w.p.transport != trTCP {
+							o.Probe("second-round-trip-after-idle-quic")
+							if w.p.longIdle {
+								o.Probe("second-round-trip-after-40s-idle-quic")
+							}
+						}
 					}
 				}
 				if op.plan.use == useDuplex {
@@ -369,7 +381,7 @@ func check(w *world) {
 			case op.plan.use == useUnused || op.plan.use == useReadOnly:
 				// no nonce sent: attributed per round below
 			case op.useErr != "":
-				if len(ivs) > 0 && !op.faultArmed {
+				if len(ivs) > 0 && !op.relaxed() {
 					o.Violate("C07/handler-ran-for-failed-open", "%s: first use failed (%s) yet %s ran and read the nonce", desc, op.useErr, ivs[0].in)
 				}
 			default:
@@ -422,23 +434,21 @@ func check(w *world) {
 		o.Logf("  handler run without nonce: %s round %d seen=%q start=%d (%s)", iv.in, iv.round, iv.seen, iv.start, iv.endErr)
 		// candidates: opens of the same round that legitimately end without sending a nonce
 		var cand []*openRec
-		faulty := false
+		faulty, ftag := false, ""
 		for _, op := range w.opens {
 			if op.round != iv.round {
 				continue
 			}
-			if op.faultArmed {
+			if op.relaxed() {
 				faulty = true
+				ftag = refusalTag(op)
 			}
 			if op.openErr == "" && (op.plan.use == useUnused || op.plan.use == useReadOnly) {
 				cand = append(cand, op)
 			}
 		}
 		if iv.seen == "" {
-			tag := ""
-			if faulty {
-				tag = "/refusal-injected"
-			}
+			tag := ftag
 			o.Violate("C07/handler-on-unbound-stream/"+hostKind(w.p.blankB)+"-listener"+tag, "round %d: %s ran (no nonce received) on a stream whose Protocol() is empty (not charged to any protocol scope)", iv.round, iv.in)
 			continue
 		}
@@ -486,7 +496,7 @@ func check(w *world) {
 	for _, r := range rounds {
 		armed := false
 		for _, op := range w.opens {
-			if op.round == r && op.faultArmed {
+			if op.round == r && op.relaxed() {
 				armed = true
 			}
 		}
@@ -515,8 +525,16 @@ func refusalTag(op *openRec) string {
 	if op.faultArmed {
 		return "/refusal-injected"
 	}
+	if op.lossy {
+		return "/udp-loss"
+	}
 	return ""
 }
+
+// relaxed: a fault may be acting on this open (an injected SetProtocol refusal was armed, or datagrams are
+// being lost on the UDP wire): it may fail or time out; liveness oracles and "a handler ran for a failed
+// open" are off, every safety oracle stays on.
+func (op *openRec) relaxed() bool { return op.faultArmed || op.lossy }
 
 func anyMatch(states []state, kmin, kmax int, id protocol.ID) bool {
 	for k := kmin; k <= kmax; k++ {
